@@ -1,6 +1,6 @@
 SPECIFICATION TSpec
 CONSTANTS
-  Variant = "fixed"
+  Variant = "catchup"
   E = 1
   VPerO = 1024
   FT1000 = 19508
